@@ -14,6 +14,12 @@ import collections
 from .core import Site, term_path
 from .vfg import place_of
 
+def _fk(body):
+    """Cache key of a body in the flow analyses: a flat view has its own (it shares `path` with the function it is a
+    view of)."""
+    return getattr(body, "flow_key", None) or body.path
+
+
 def norm_path(prog, path):
     """Body key of a callee path (generic arguments stripped the way Program keys its bodies)."""
     if path in prog.bodies:
@@ -183,7 +189,14 @@ class ResultFlow(object):
                 p = s["rv"]["place"]
                 if not p["p"]:
                     src = p["l"]
+                elif p["p"] == ["deref"]:
+                    # `if let Err(e) = &result`: the discriminant is read through a shared reference to the local
+                    rd = body.assignments().get(p["l"], [])
+                    if len(rd) == 1 and rd[0][1] != "term" and rd[0][2]["k"] == "ref" and not rd[0][2].get("mut") \
+                            and not rd[0][2]["place"]["p"]:
+                        src = rd[0][2]["place"]["l"]
         if src is None:
+            self._bool_switch(bb, t, d)
             return
         ty = self.prog.types[body.locals[src]]
         origin = None
@@ -207,6 +220,59 @@ class ResultFlow(object):
             # otherwise is Err unless it is the unreachable block
             if body.blocks[oth]["term"]["k"] != "unreachable":
                 err_t = oth
+        if ok_t is not None:
+            self.edge_pol.setdefault((bb, ok_t), []).append((origin, "ok"))
+        if err_t is not None:
+            self.edge_pol.setdefault((bb, err_t), []).append((origin, "err"))
+
+    def _bool_switch(self, bb, t, d):
+        """`if result.is_err() { .. }` / `if result.is_ok() { .. }`: the edges of the test of that bool."""
+        body = self.body
+        neg = False
+        for _ in range(3):
+            defs = body.assignments().get(d, [])
+            if len(defs) != 1:
+                return
+            dbb, j, rv = defs[0]
+            if j != "term" and rv["k"] == "unop" and rv["op"] == "Not":
+                pl = place_of(rv["a"])
+                if pl is None or pl["p"]:
+                    return
+                neg = not neg
+                d = pl["l"]
+                continue
+            if j != "term" and rv["k"] == "use":
+                pl = place_of(rv["op"])
+                if pl is None or pl["p"]:
+                    return
+                d = pl["l"]
+                continue
+            break
+        else:
+            return
+        if j != "term" or term_path(rv) not in ("std::result::Result::is_err", "std::result::Result::is_ok") or not rv["args"]:
+            return
+        a = place_of(rv["args"][0])
+        if a is None or a["p"]:
+            return
+        rd = body.assignments().get(a["l"], [])
+        if not (len(rd) == 1 and rd[0][1] != "term" and rd[0][2]["k"] == "ref" and not rd[0][2]["place"]["p"]):
+            return
+        x = rd[0][2]["place"]["l"]
+        if not self.is_result(body.locals[x]):
+            return
+        origin = self.origin_call(x)
+        if origin is None:
+            return
+        listed = dict((v, b_) for v, b_ in t["targets"])
+        f_t = listed.get(0)
+        t_t = t["otherwise"] if 0 in listed else listed.get(1)
+        if f_t is None and 1 in listed:
+            f_t = t["otherwise"]
+        is_err = term_path(rv).endswith("is_err")
+        if neg:
+            is_err = not is_err
+        err_t, ok_t = (t_t, f_t) if is_err else (f_t, t_t)
         if ok_t is not None:
             self.edge_pol.setdefault((bb, ok_t), []).append((origin, "ok"))
         if err_t is not None:
@@ -261,10 +327,10 @@ class MustFlow(object):
         self._in_progress = set()
 
     def rf(self, body):
-        r = self.rflow.get(body.path)
+        r = self.rflow.get(_fk(body))
         if r is None:
             r = ResultFlow(self.prog, body)
-            self.rflow[body.path] = r
+            self.rflow[_fk(body)] = r
         return r
 
     def _sub(self, s, site, tgt):
@@ -315,9 +381,9 @@ class MustFlow(object):
         return S
 
     def summarize(self, body):
-        if body.path in self.summ_ret or body.path in self._in_progress:
+        if _fk(body) in self.summ_ret or _fk(body) in self._in_progress:
             return
-        self._in_progress.add(body.path)
+        self._in_progress.add(_fk(body))
         rf = self.rf(body)
         edge_ops = collections.defaultdict(list)
         ok_bonus = {}       # origin bb -> events to add on its ok edges
@@ -375,8 +441,8 @@ class MustFlow(object):
                     if s not in inq:
                         work.append(s)
                         inq.add(s)
-        self.rel_in[body.path] = IN
-        self.edge_ops[body.path] = edge_ops
+        self.rel_in[_fk(body)] = IN
+        self.edge_ops[_fk(body)] = edge_ops
         # summaries
         ret = ALL
         for rb in body.return_blocks():
@@ -404,10 +470,10 @@ class MustFlow(object):
         if ok is ALL:
             ok = frozenset()
         role = frozenset(self.role_events.get(body.path, ()))
-        self.summ_ret[body.path] = frozenset(ret) | role
-        self.summ_ok[body.path] = frozenset(ok) | frozenset(ret) | role | frozenset(
+        self.summ_ret[_fk(body)] = frozenset(ret) | role
+        self.summ_ok[_fk(body)] = frozenset(ok) | frozenset(ret) | role | frozenset(
             self.role_ok_events.get(body.path, ()))
-        self._in_progress.discard(body.path)
+        self._in_progress.discard(_fk(body))
 
     # ---- contexts ----
     def entry_sets(self, roots):
@@ -542,8 +608,8 @@ class MayFlow(object):
     def solve_body(self, body):
         """IN[bb] = events that may have happened before bb in this body; path-sensitive on drop flags (a flag-guarded
         drop is only reached along paths on which the flag is still set)."""
-        if body.path in self.rel_in:
-            return self.rel_in[body.path]
+        if _fk(body) in self.rel_in:
+            return self.rel_in[_fk(body)]
         prod = body.flag_product()
         if prod is None:
             entry = 0
@@ -585,7 +651,7 @@ class MayFlow(object):
         for n, v in INN.items():
             b = bb_of(n)
             IN[b] = v if b not in IN else (IN[b] | v)
-        self.rel_in[body.path] = IN
+        self.rel_in[_fk(body)] = IN
         return IN
 
     def entry_sets(self, roots):
